@@ -165,7 +165,33 @@ COMPUTED = [
     '"abc","def"', '3#"ab"', '2_"hello"', '"hello"?"l"', '<"cab"', '?"hello"', '="hello foo"', "$123",
     '"hello"@[0 1]', ',/["ab" "cd"]', '10:$"12"', '&"hello"="l"', '0ca,0cb',
 ]
-UNIVERSE += COMPUTED
+# values with a memory layout other than the default row-major contiguous one: Klong transposes and arithmetic
+# on them, reversed / dropped / selected views, and arrays placed into the interpreters from Python
+LAYOUT = [
+    "+[[1 2 3] [4 5 6]]", "2*+[[1 2 3] [4 5 6]]", "(+[[1 2 3] [4 5 6]])+1", "+[[1.5 2.5] [3.5 4.5] [5.5 6.5]]",
+    "(+[[1 2] [3 4]]),+[[5 6] [7 8]]", "(+[[1 2 3] [4 5 6]])*+[[1 2 3] [4 5 6]]", "+[[[1 2] [3 4]] [[5 6] [7 8]]]",
+    "+[[1 2] [3 4]]", "++[[1 2 3] [4 5 6]]", "|[[1 2] [3 4] [5 6]]", "|!5", "+|[[1 2 3] [4 5 6]]",
+    "1_[[1 2] [3 4] [5 6]]", "2#[[1 2] [3 4] [5 6]]", "[1 2 3 4 5 6]@[0 2 4]", ":{[1 2]},1,,+[[1 2 3] [4 5 6]]",
+    "(,+[[1 2 3] [4 5 6]]),,1", "+[[1 0 1] [0 1 1]]=1",
+]
+PY_VALUES = {           # name -> numpy value, bound in every interpreter (server, client, twin)
+    "pyT": lambda: np.arange(6).reshape(2, 3).T,
+    "pyTf": lambda: (np.arange(6).reshape(2, 3) * 1.5).T,
+    "pyF": lambda: np.asfortranarray(np.arange(12).reshape(3, 4)),
+    "pyF3": lambda: np.asfortranarray(np.arange(24).reshape(2, 3, 4)),
+    "pyS": lambda: np.arange(10)[::2],
+    "pyR": lambda: np.arange(6).reshape(2, 3)[:, ::-1],
+    "pyRv": lambda: np.arange(5)[::-1],
+    "pyNC": lambda: np.arange(12).reshape(3, 4)[:, 1:3],
+    "pyNCT": lambda: np.arange(12).reshape(3, 4)[:, 1:3].T,
+    "py0": lambda: np.array(5),
+    "py0f": lambda: np.array(2.5),
+    "pyB": lambda: np.array([[True, False], [False, True], [True, True]]).T,
+    "pyI32": lambda: np.arange(6, dtype=np.int32).reshape(3, 2).T,
+    "pyOT": lambda: np.array([[1, "a"], [2.5, "bc"], [3, "d"]], dtype=object).T,
+}
+LAYOUT += list(PY_VALUES)
+UNIVERSE += COMPUTED + LAYOUT
 UNDEF_EXPRS = [e for e in UNIVERSE if "1%0" in e]
 
 SETUP = ["k0::{77}", "id1::{x}", "snd::{x;y}", "trd::{x;y;z}", "und1::{x;:_x}", "cnt::0", "last::0",
@@ -188,7 +214,13 @@ REBIND_NAMES = ["g", "h"]                 # names re-bound to functions of diffe
 FN_BODIES = {0: "{77}", 1: "{x}", 2: "{x;y}", 3: "{x;y;z}"}      # model code = arity
 
 
+def _setup_values(k):
+    for name, mk in PY_VALUES.items():
+        k[name] = mk()
+
+
 def _setup_interp(k):
+    _setup_values(k)
     for t in SETUP:
         k(t)
     k["pyid"] = lambda x: x
@@ -498,7 +530,11 @@ def run_stream_batch(ctx, drv, rig, label, frames, objs, ids, stream, cuts, lazy
         got = [(m, _mtok(o)) for m, o in out]
         if got != exp or [b for _, b in raw] != bodies[:ncomplete]:
             und = any("U" in t.split(",") or ":U" in t for _, t in exp)
-            fail(ctx, "stream:messages:undefined" if und else "stream:messages", case, [f"{m}:{t}" for m, t in exp], [f"{m}:{t}" for m, t in got],
+            same_frames = [m for m, _ in got] == [m for m, _ in exp] and \
+                [b for _, b in raw] == bodies[:ncomplete]
+            # right frames, wrong value inside (the stream itself stays in step) vs lost / merged frames
+            kind = "stream:message-content" if same_frames else "stream:messages"
+            fail(ctx, "stream:messages:undefined" if und else kind, case, [f"{m}:{t}" for m, t in exp], [f"{m}:{t}" for m, t in got],
                             "messages must come out intact, one by one, in order")
         impl = _impl_line(raw, tail, n, with_msgs=(pick is None or ci in pick))
         ended_clean = impl.endswith("tail=clean")
@@ -754,6 +790,7 @@ class Live:
         self.twin = KlongInterpreter()
         _setup_interp(self.srv)
         _setup_interp(self.twin)
+        _setup_values(self.cli)
         if ipc._ipc_tcp_server.task is not None:
             raise Infra("an IPC server is already running in this process")
         for attempt in range(3):
@@ -1446,7 +1483,8 @@ def run_live(ctx, drv, live, singleton):
     # every universe value through every operation form
     values = list(UNIVERSE)
     if quick:
-        keep = set(UNDEF_EXPRS) | set(rng.sample(values, 22)) | set(COMPUTED[:3]) | set(rng.sample(COMPUTED, 6))
+        keep = set(UNDEF_EXPRS) | set(rng.sample(values, 22)) | set(COMPUTED[:3]) | set(rng.sample(COMPUTED, 6)) | \
+            set(LAYOUT[:2]) | {"pyT", "pyF"} | set(rng.sample(LAYOUT, 5))
         values = [e for e in values if e in keep]
     for e in values:
         ops = gen_value_ops(rng, e, rng.randrange(2))
@@ -1543,6 +1581,7 @@ def run(ctx):
     live = None
     try:
         twin = KlongInterpreter()
+        _setup_values(twin)
         singleton = check_tau(ctx, twin)
         t0 = time.time()
         samples = run_framing(ctx, drv, twin)
@@ -1587,6 +1626,7 @@ def replay(ctx, case):
     live = None
     try:
         twin = KlongInterpreter()
+        _setup_values(twin)
         singleton = check_tau(ctx, twin)
         if c.get("kind") == "stream":
             import klongpy.sys_fn_ipc as ipc
